@@ -95,9 +95,9 @@ Section ext.
     (forall n, scope (nd s' n) = scope (nd s n)) ->
     scoping_ok s -> scoping_ok s'.
   Proof.
-    intros Hb Hk Hd Hs [H1 H2 H3 H4].
+    intros Hb Hk Hd Hs [H1 H2 H3 H4 H5].
     assert (Hbd : forall b, bd s' b = bd s b) by (intros; unfold bd; rewrite Hb; reflexivity).
-    split.
+    split; [| | | |intros n q b0; rewrite Hd, Hk; apply H5].
     - intros n q. rewrite Hd, !Hs, Hk. intros Hq. destruct (H1 n q Hq) as [?|[?|(b & ? & ? & ?)]]; auto.
       right; right. exists b. rewrite Hbd. auto.
     - intros n q b. unfold inGen. rewrite Hd, !Hs, Hbd. apply H2.
@@ -184,15 +184,17 @@ Section ext.
   Qed.
 
   Lemma obs_ok_ext :
+    binds s' = binds s ->
     obs s' = obs s -> next s' = next s -> (forall n, has s' n <-> has s n) ->
     (forall n, observers (nd s' n) = observers (nd s n)) ->
     (forall n, scope (nd s' n) = scope (nd s n)) ->
     obs_ok s -> obs_ok s'.
   Proof.
-    intros Ho Hn Hh Hob Hs [H1 H2 H3]. split.
+    intros Hbi Ho Hn Hh Hob Hs [H1 H2 H3 H4]. split.
     - intros n o. rewrite Hob, Ho. apply H1.
     - intros n. rewrite Hob. apply H2.
     - intros o n. rewrite Ho, Hn, Hh, Hs. apply H3.
+    - intros o n. rewrite Ho, Hbi. apply H4.
   Qed.
 
   Lemma quiet_ext :
@@ -293,6 +295,7 @@ Proof.
     + intros n q b. rewrite Hnd. cbn. intros H; inversion H.
     + intros b q. unfold bd, init; cbn. rewrite lookup_empty. cbn. discriminate.
     + intros n q. rewrite Hnd. cbn. intros H; inversion H.
+    + intros n q b0. rewrite Hnd. cbn. intros H; inversion H.
   - split.
     + intros n _. rewrite Hnd. reflexivity.
     + intros n b H. destruct (has_init mh n H).
@@ -312,6 +315,7 @@ Proof.
   - split.
     + intros n o. rewrite Hnd. unfold init; cbn. rewrite lookup_empty. split; [intros H; inversion H|discriminate].
     + intros n. rewrite Hnd. cbn. constructor.
+    + intros o n. unfold init; cbn. rewrite lookup_empty. discriminate.
     + intros o n. unfold init; cbn. rewrite lookup_empty. discriminate.
   - split; try reflexivity; try (intros n; rewrite Hnd; reflexivity).
     unfold init; cbn. apply Forall_replicate. reflexivity.
@@ -384,9 +388,12 @@ Section extend.
   Lemma extend_count : count_ok s -> count_ok s'.
   Proof. apply count_ok_ext; try assumption. intros m; dyn m; assumption. Qed.
 
-  Lemma extend_obs : ids_ok s -> obs_ok s -> obs_ok s'.
+  Lemma extend_obs :
+    (forall n, has s n -> binds s !! n = None -> binds s' !! n = None) ->
+    ids_ok s -> obs_ok s -> obs_ok s'.
   Proof.
-    intros [Hlt _] [H1 H2 H3]. split.
+    intros Hbn [Hlt _] [H1 H2 H3 H4]. split; [| | |intros o n; rewrite Hobs; intros Ho;
+      apply Hbn; [apply (has_observers s n o), H1, Ho|apply (H4 o n Ho)]].
     - intros n o. dyn n. rewrite Do, Hobs. apply H1.
     - intros n. dyn n. rewrite Do. apply H2.
     - intros o n. rewrite Hobs. intros Ho. destruct (H3 o n Ho) as (Ha & Hb & Hc).
@@ -436,7 +443,8 @@ Proof. intros E H. inversion H; subst; [auto|congruence]. Qed.
 Section new_top.
   Context (s : state) (k : kind) (d : list nid) (v : Z).
   Hypothesis (HI : Inv s).
-  Hypothesis (Hd : forall p, p ∈ d -> has s p /\ scope (nd s p) = None).
+  Hypothesis (Hd : forall p, p ∈ d -> has s p /\ scope (nd s p) = None /\
+                                      match nkind (nd s p) with KBindLhs _ => False | _ => True end).
   Hypothesis (Hk : match k with KBindLhs _ | KBindMain _ => False | _ => True end).
   Let s' := (newNode s k d None v).1.
   Let x := next s.
@@ -496,7 +504,7 @@ Section new_top.
       + intros _. cbn. destruct k; try exact I; contradiction.
       + intros [?|H]%nt_has; [contradiction|]. apply Ikinds, H.
     - (* scopes *) apply (scopes_ok_ext s s'); auto using nt_binds, nt_scope.
-    - (* scoping *) destruct Iscoping as [S1 S2 S3 S4]. split.
+    - (* scoping *) destruct Iscoping as [S1 S2 S3 S4 S5]. split.
       + intros n q. rewrite nt_nd. destruct (decide (n = x)) as [->|Hne].
         * cbn. intros Hq. left. rewrite nt_scope. apply Hd, Hq.
         * rewrite !nt_scope. fold (nd s n). intros Hq.
@@ -509,12 +517,16 @@ Section new_top.
       + intros b q. unfold inGen. rewrite nt_bd, nt_scope. apply S3.
       + intros n q. rewrite nt_nd. destruct (decide (n = x)) as [->|Hne].
         * cbn. intros Hq tq dq tn dn Cq Cn.
-          destruct (Hd q Hq) as [Hhq Hsq].
+          destruct (Hd q Hq) as (Hhq & Hsq & _).
           apply chain_top_inv in Cq as [-> ->]; [|rewrite nt_scope; exact Hsq].
           apply chain_top_inv in Cn as [-> ->];
             [|rewrite nt_scope, (not_has_nd s x nt_x); reflexivity].
           left. apply (io_lt s Iids) in Hhq. unfold x. lia.
         * intros Hq. apply (mu_lt_ext s s' nt_scope). apply S4, Hq.
+      + intros n q b0. rewrite (nt_nd n). destruct (decide (n = x)) as [->|Hne].
+        * cbn. intros Hq Hkq. destruct (Hd q Hq) as (Hhq & _ & Hnl). rewrite nt_nd_has in Hkq by exact Hhq.
+          rewrite Hkq in Hnl. destruct Hnl.
+        * intros Hq Hkq. rewrite nt_nd_has in Hkq by (eapply (io_decl s Iids), Hq). apply (S5 n q b0 Hq Hkq).
     - (* valid *) destruct Ivalid as [V1 V2 V3 V4]. split.
       + intros n. rewrite nt_scope. destruct (nt_dyn n) as (_&_&_&_&_&_&_&_&->&_). apply V1.
       + intros n b [->|Hn]%nt_has.
@@ -540,6 +552,7 @@ Section new_top.
       + intros m Hm. rewrite nt_nd_has by exact Hm. reflexivity.
       + intros m Hm. apply nt_scope.
       + unfold s'. apply obs_newNode.
+      + intros m _ Hm. rewrite nt_binds. exact Hm.
     - apply (extend_quiet s s' nt_dyn); [| | | | | |exact Iquiet]; unfold s'.
       + apply adj_newNode. + apply invq_newNode. + apply status_newNode.
       + apply setDuring_newNode. + apply setRemoved_newNode. + apply handlers_newNode.
@@ -571,6 +584,7 @@ Section new_bind.
   Context (s : state) (cases : list texp) (a : nid).
   Hypothesis (HI : Inv s).
   Hypothesis (Ha : has s a) (Has : scope (nd s a) = None).
+  Hypothesis (Hak : match nkind (nd s a) with KBindLhs _ => False | _ => True end).
   Hypothesis (Hcases : Forall (texp_wf s (next s) true) cases).
   Let s' := (newBindWith false s cases a None).1.
   Let x := next s.
@@ -695,7 +709,7 @@ Section new_bind.
     - (* scopes *) intros n b. rewrite nb_scope, nb_binds. intros E. destruct (Iscopes n b E) as [Hb Hlt].
       split; [|exact Hlt]. rewrite lookup_insert_ne; [exact Hb|].
       intros <-. rewrite nb_binds_x in Hb. destruct Hb; discriminate.
-    - (* scoping *) destruct Iscoping as [S1 S2 S3 S4]. split.
+    - (* scoping *) destruct Iscoping as [S1 S2 S3 S4 S5]. split.
       + intros n q. rewrite nb_nd. destruct (decide (n = S x)) as [->|].
         { cbn. intros ->%elem_of_list_singleton. left. rewrite nb_scope, (not_has_nd s _ nb_x). reflexivity. }
         destruct (decide (n = x)) as [->|].
@@ -722,6 +736,12 @@ Section new_bind.
           apply chain_top_inv in Cn as [-> ->]; [|rewrite nb_scope, (not_has_nd s _ nb_x); reflexivity].
           left. exact Hax. }
         intros Hq. apply (mu_lt_ext s s' nb_scope). apply S4, Hq.
+      + intros n q b0. rewrite (nb_nd n). destruct (decide (n = S x)) as [->|].
+        { cbn. intros ->%elem_of_list_singleton _. reflexivity. }
+        destruct (decide (n = x)) as [->|].
+        { cbn. intros ->%elem_of_list_singleton Hkq. rewrite nb_nd_has in Hkq by exact Ha.
+          rewrite Hkq in Hak. destruct Hak. }
+        intros Hq Hkq. rewrite nb_nd_has in Hkq by (eapply (io_decl s Iids), Hq). apply (S5 n q b0 Hq Hkq).
     - (* valid *) destruct Ivalid as [V1 V2 V3 V4]. split.
       + intros n. rewrite nb_scope. destruct (nb_dyn n) as (_&_&_&_&_&_&_&_&->&_). apply V1.
       + intros n b Hn. rewrite nb_scope. intros E. unfold inGen.
@@ -746,6 +766,7 @@ Section new_bind.
       + rewrite Snext. unfold x. lia.
       + apply nb_dyn.
       + intros m _. apply nb_scope.
+      + intros m Hm Hn. rewrite nb_binds, lookup_insert_ne; [exact Hn|]. intros <-. exact (nb_x Hm).
     - apply (extend_quiet s s' nb_dyn Sadj Sinvq Sstatus Ssd Ssr Sh Iquiet).
     - apply (extend_shape s s' Sadj Smh Ishape).
     - apply (extend_stamps s s' nb_dyn Sstab Istamps).
@@ -764,6 +785,10 @@ Definition is_new (o : op) : bool :=
 Lemma user_top s a : isUserNode s a = true -> isTop s a = true -> has s a /\ scope (nd s a) = None.
 Proof. intros _ H. apply isTop_true, H. Qed.
 
+Lemma user_top3 s a : isUserNode s a = true -> isTop s a = true ->
+  has s a /\ scope (nd s a) = None /\ match nkind (nd s a) with KBindLhs _ => False | _ => True end.
+Proof. intros [H1 H2]%isUserNode_true [_ H3]%isTop_true. auto. Qed.
+
 Theorem Inv_step_new s o s' e :
   Inv s -> op_ok s o = true -> op_clean s o = true -> is_new o = true ->
   step s o = Ok (s', e) -> Inv s'.
@@ -773,19 +798,19 @@ Proof.
   - apply Inv_newNode_top; [exact HI| |exact I]. intros p Hp; inversion Hp.
   - apply Inv_newNode_top; [exact HI| |exact I]. intros p Hp; inversion Hp.
   - apply Inv_newNode_top; [exact HI| |exact I].
-    intros p ->%elem_of_list_singleton. apply isTop_true, Hcl.
-  - apply andb_true_iff in Hcl as [H1 H2].
+    intros p ->%elem_of_list_singleton. apply user_top3; assumption.
+  - apply andb_true_iff in Hcl as [H1 H2]. apply andb_true_iff in Hok as [K1 K2].
     apply Inv_newNode_top; [exact HI| |exact I].
     intros p Hp. apply elem_of_cons in Hp as [->|Hp]; [|apply elem_of_list_singleton in Hp as ->];
-      apply isTop_true; assumption.
+      apply user_top3; assumption.
   - apply Inv_newNode_top; [exact HI| |exact I].
-    intros p Hp. apply isTop_true. rewrite forallb_forall in Hcl. apply Hcl. apply elem_of_list_In, Hp.
+    intros p Hp. rewrite forallb_forall in Hcl, Hok. apply elem_of_list_In in Hp. apply user_top3; auto.
   - apply Inv_newNode_top; [exact HI| |exact I].
-    intros p ->%elem_of_list_singleton. apply isTop_true, Hcl.
+    intros p ->%elem_of_list_singleton. apply user_top3; assumption.
   - apply Inv_newNode_top; [exact HI| |exact I].
-    intros p ->%elem_of_list_singleton. apply isTop_true, Hcl.
-  - apply andb_true_iff in Hcl as [H1 H2]. apply andb_true_iff in Hok as [[_ _]%andb_true_iff H3].
-    destruct (isTop_true _ _ H1) as [Ha Hs].
+    intros p ->%elem_of_list_singleton. apply user_top3; assumption.
+  - apply andb_true_iff in Hcl as [H1 H2]. apply andb_true_iff in Hok as [[K1 _]%andb_true_iff H3].
+    destruct (user_top3 _ _ K1 H1) as (Ha & Hs & Hk).
     apply Inv_newBind_top; try assumption.
     rewrite forallb_forall in H2, H3. apply Forall_forall. intros c Hc.
     apply (texp_ok_wf s (inv_ids s HI) c true); [apply H3|apply H2]; exact Hc.
@@ -1281,7 +1306,8 @@ Record unlink_like (s s1 : state) (c p : nid) : Prop := {
   ul_obs : obs s1 = obs s;
   ul_numNodes : numNodes s1 = numNodes s;
   ul_next : next s1 = next s;
-  ul_log : log s1 = log s
+  ul_log : log s1 = log s;
+  ul_binds : binds s1 = binds s
 }.
 
 Lemma unlink_like_unlink s c p : unlink_like s (unlink s c p) c p.
@@ -1367,7 +1393,7 @@ Proof.
   constructor;
     first [exact t_edges0|exact t_zero0|exact t_height0|exact t_heap0
           |apply (count_ok_ext s _); [reflexivity|reflexivity|reflexivity|reflexivity|exact t_count0]
-          |apply (obs_ok_ext s _); [reflexivity|reflexivity|reflexivity|reflexivity|reflexivity|exact t_obs0]
+          |apply (obs_ok_ext s _); [reflexivity|reflexivity|reflexivity|reflexivity|reflexivity|reflexivity|exact t_obs0]
           |exact t_valid0|idtac].
   - intros n Hn _. rewrite Hnd. rewrite not_elem_of_cons in Hn. destruct Hn as [Hne Hn].
     apply t_nec0; [exact Hn|congruence].
@@ -1459,6 +1485,7 @@ Proof.
     + rewrite (numNodes_removeNode s p s' H), (obs_removeNode s p s' H), Hreg, C3.
       rewrite (rm_length_NoDup p (reg s) C1) by (apply C2, Hgp). lia.
   - apply (obs_ok_ext s s'); auto.
+    + apply (binds_removeNode s p s' H).
     + apply (obs_removeNode s p s' H).
     + apply (next_removeNode s p s' H).
     + apply (has_removeNode s p s' H).
@@ -1731,7 +1758,7 @@ Proof.
         assert (0 < size (obs s))%nat; [|lia].
         destruct (decide (size (obs s) = 0)%nat) as [E0|]; [|lia].
         apply map_size_empty_inv in E0. rewrite E0, lookup_empty in Eo. discriminate.
-    - destruct t_obs0 as [O1 O2 O3]. split.
+    - destruct t_obs0 as [O1 O2 O3 O4]. split; [| | |intros o' m; cbn; rewrite lookup_delete_Some; intros [_ Ho']; apply (O4 o' m Ho')].
       + intros m o'. rewrite Hobs. cbn. rewrite lookup_delete_Some.
         destruct (decide (m = n)) as [->|Hne].
         * rewrite elem_of_rm, O1. split; [intros [? ?]; split; [congruence|assumption]|intros [? ?]; split; [assumption|congruence]].
@@ -1876,11 +1903,12 @@ Proof.
         rewrite (bw_kind_main s b r (r_binds0 b r Hr)) in Hkn. discriminate.
     - apply (kinds_ok_ext s s3); auto.
     - apply (scopes_ok_ext s s3); auto.
-    - destruct r_scoping0 as [S1 S2 S3 S4]. split.
+    - destruct r_scoping0 as [S1 S2 S3 S4 S5]. split.
       + intros m q Hq. rewrite !Hsc, Hk. apply S1, Hsub, Hq.
       + intros m q b Hq. rewrite !Hsc. apply S2, Hsub, Hq.
       + intros b q. rewrite Hsc. apply S3.
       + intros m q Hq. apply (mu_lt_ext s s3 Hsc). apply S4, Hsub, Hq.
+      + intros m q b0 Hq. rewrite Hk. apply S5, Hsub, Hq.
     - intros m. rewrite Hsc, Hv. auto.
     - intros m b. rewrite Hhas, Hsc, Hv, (Hfield _ inGraph) by reflexivity. apply r_vdead0.
     - intros m b. rewrite !Hv. apply r_vgen0.
@@ -2307,7 +2335,7 @@ Proof.
     + unfold scopeHeight in *. destruct (scope (nd s m)); [rewrite Hnd|]; exact H3.
   - apply (count_ok_ext s s'); auto; [apply (oh_reg _ _ F)|apply (oh_obs _ _ F)|apply (oh_numNodes _ _ F)|].
     intros m. rewrite Hnd. reflexivity.
-  - apply (obs_ok_ext s s'); auto; [apply (oh_obs _ _ F)|apply (oh_next _ _ F)|apply (oh_has _ _ F)| |];
+  - apply (obs_ok_ext s s'); auto; [apply (oh_binds _ _ F)|apply (oh_obs _ _ F)|apply (oh_next _ _ F)|apply (oh_has _ _ F)| |];
       intros m; rewrite Hnd; reflexivity.
   - intros m. rewrite Hnd. apply b_valid0.
   - intros m b. rewrite !Hnd. apply b_sreg0.
